@@ -4,6 +4,6 @@ go 1.20
 
 require github.com/wneessen/go-mail v0.0.0
 
-require golang.org/x/text v0.22.0 // indirect
+require golang.org/x/text v0.22.0
 
 replace github.com/wneessen/go-mail => /repo
